@@ -57,6 +57,7 @@ type Options struct {
 	NoCross  bool
 	Trace    bool
 	MaxPaths int
+	TimeoutS int
 }
 
 type unitReport struct {
@@ -204,6 +205,9 @@ func RunProperty(o Options) int {
 			to = v
 		} else if o.Tier == "thorough" {
 			to = 3600
+		}
+		if o.TimeoutS > 0 {
+			to = o.TimeoutS
 		}
 		cfg := RunConfig{Harness: u.Entry, Workers: o.Workers, Params: params, Timeout: time.Duration(to) * time.Second, Trace: o.Trace, MaxPaths: o.MaxPaths,
 			KnownMatch: func(v *Violation) string { return matchKnown(v, o.Prop, known) }}
